@@ -108,6 +108,9 @@ pub struct Plan {
     /// comes first in the list
     #[serde(default)]
     pub extra_res_ctrl: bool,
+    /// ExtendedResponse value / BindResponse serverSaslCreds are octets that are not UTF-8
+    #[serde(default)]
+    pub binary_payload: bool,
 }
 
 impl Default for Plan {
@@ -124,6 +127,7 @@ impl Default for Plan {
             silent_after_pages: 0,
             page_refs: false,
             extra_res_ctrl: false,
+            binary_payload: false,
         }
     }
 }
